@@ -1025,3 +1025,161 @@ def modules_defining(ctx, package: str, want) -> tuple[str, ...]:
     if not out:
         raise AnalysisError(f"no public name of {package} selected for a rule's module scope (anchor vanished)")
     return tuple(sorted(out))
+
+
+def retained_params(ctx, t: FuncInfo, _depth: int = 0) -> set[int]:
+    """Indices of the parameters of ``t`` that it stores, uncopied, into an
+    attribute of some object (``x.attr = p``, also through a local alias or a
+    conditional expression): the callee keeps the caller's object."""
+    out = set()
+    if isinstance(t.node, ast.Lambda) or _depth > 3:
+        return out
+    memo = ctx.__dict__.setdefault("_retained_memo", {})
+    if t.qualname in memo:
+        return memo[t.qualname]
+    memo[t.qualname] = out  # recursion guard
+    # ... or hands on to a callee that keeps it
+    from ..lifecycle import Lifecycle
+
+    lc = ctx.__dict__.get("_retained_lc") or ctx.__dict__.setdefault("_retained_lc", Lifecycle(ctx))
+    for ev, t2, rc in ctx.effects.calls(t, t.cls):
+        if isinstance(t2.node, ast.Lambda) or t2 is t:
+            continue
+        for i in retained_params(ctx, t2, _depth + 1):
+            arg = lc._arg_expr(ev, t2, i)
+            if arg is None:
+                continue
+            for o in ctx.flow.origins(t, arg, t.cls):
+                if o[0] == "param" and o[1] in t.params:
+                    out.add(t.params.index(o[1]))
+    for n in own_nodes(t.node):
+        if isinstance(n, ast.Assign):
+            pairs = [(tg, n.value) for tg in n.targets]
+        elif isinstance(n, ast.AnnAssign) and n.value is not None:
+            pairs = [(n.target, n.value)]
+        else:
+            continue
+        for tg, v in pairs:
+            if not isinstance(tg, ast.Attribute):
+                continue
+            for o in ctx.flow.origins(t, v, t.cls):
+                if o[0] == "param" and o[1] in t.params:
+                    out.add(t.params.index(o[1]))
+    return out
+
+
+def check_state_escape(ctx, rule_id: str, cls: ClassInfo, what: str):
+    """Zero-expected rule: a container attribute that the methods of ``cls``
+    update in place (``self.a.update(..)``, ``self.a[k] = v``, ``pop`` ...)
+    is not handed to a callee that keeps it (stores it into an attribute of
+    another object).  Otherwise the object produced by one call keeps changing
+    with every later call."""
+    from ..lifecycle import Lifecycle
+
+    chk, repo, eff, flow = ctx.chk, ctx.repo, ctx.effects, ctx.flow
+    lc = Lifecycle(ctx)
+    mutated: dict[str, tuple] = {}
+    methods = [m for m in cls.methods.values() if m.params and not m.is_static]
+    for m in methods:
+        if m.name == "__init__":
+            continue
+        me = m.params[0]
+        for ev in eff.events(m, cls):
+            if ev.kind != "write" or ev.data.get("op") == "loopvar":
+                continue
+            obj = eff.mutated_object(ev)
+            if obj is None:
+                continue
+            for o in flow.origins(m, obj, cls):
+                if o[0] == "attr" and o[1] == me and len(o[2]) == 1:
+                    mutated.setdefault(o[2][0], (m, ev))
+    n_calls = 0
+    hits = 0
+    for m in methods:
+        me = m.params[0]
+        for ev, t, rc in eff.calls(m, cls):
+            if isinstance(t.node, ast.Lambda):
+                continue
+            keep = retained_params(ctx, t)
+            if not keep:
+                continue
+            n_calls += 1
+            for i in keep:
+                arg = lc._arg_expr(ev, t, i)
+                if arg is None:
+                    continue
+                for o in flow.origins(m, arg, cls):
+                    if o[0] == "attr" and o[1] == me and len(o[2]) == 1 and o[2][0] in mutated:
+                        m2, ev2 = mutated[o[2][0]]
+                        hits += 1
+                        chk.violation(
+                            rule_id, m, ev.node,
+                            f"`self.{o[2][0]}` is handed to {t.name}, which keeps it (parameter `{t.params[i]}` is stored "
+                            f"uncopied), and {m2.name} updates that same object in place (`{ev2.data.get('text')}`): "
+                            f"{what} changes again with every later call",
+                            loc=m.loc(ev.node),
+                        )
+                        break
+    if not hits:
+        chk.ok(rule_id, cls.qualname, "", f"{len(mutated)} attributes updated in place, {n_calls} calls to callees that keep an argument: none receives such an attribute")
+
+
+# --------------------------------------------------------------------------
+def check_per_machine_double_count(ctx, rule_id: str, prefixes: tuple[str, ...], what: str):
+    """Zero-expected rule: ``instance.operations_by_machine`` lists a flexible
+    operation under *every* machine it can run on.  A quantity kept per job or
+    per operation (index built from ``<op>.job_id`` / ``<op>.operation_id`` /
+    ``<op>.position_in_job``) that is accumulated (``+=``, ``-=``) while
+    walking those lists counts such an operation once per eligible machine."""
+    chk, repo = ctx.chk, ctx.repo
+    chk.rule(rule_id, f"no per-job / per-operation quantity of {what} is accumulated while walking operations_by_machine (a flexible operation is listed under each of its machines)")
+    n_walks = hits = 0
+    for fi in repo.all_functions():
+        if isinstance(fi.node, ast.Lambda) or not fi.module.name.startswith(prefixes):
+            continue
+        defs = ctx.flow.defs(fi)
+
+        def by_machine(e, depth=0):
+            if depth > 3:
+                return False
+            if isinstance(e, ast.Attribute):
+                return e.attr == "operations_by_machine"
+            if isinstance(e, ast.Call) and isinstance(e.func, ast.Name) and e.func.id in ("enumerate", "reversed", "list", "tuple", "iter") and e.args:
+                return by_machine(e.args[0], depth + 1)
+            if isinstance(e, ast.Name):
+                return any(kind == "value" and by_machine(v, depth + 1) for kind, v, _ in defs.of(e.id))
+            return False
+
+        for outer in own_nodes(fi.node):
+            if not (isinstance(outer, ast.For) and by_machine(outer.iter)):
+                continue
+            n_walks += 1
+            tnames = [x.id for x in ast.walk(outer.target) if isinstance(x, ast.Name)]
+            # for m, ops in enumerate(...): the list is the last target; for ops in ...: the only one
+            lists = tnames[-1:]
+            mvars = set(tnames[:-1])
+            for inner in ast.walk(outer):
+                if not (isinstance(inner, ast.For) and isinstance(inner.iter, ast.Name) and inner.iter.id in lists and isinstance(inner.target, ast.Name)):
+                    continue
+                opv = inner.target.id
+                for st in ast.walk(inner):
+                    if not (isinstance(st, ast.AugAssign) and isinstance(st.target, ast.Subscript)):
+                        continue
+                    idx = st.target.slice
+                    keyed_by_op = any(
+                        isinstance(x, ast.Attribute) and isinstance(x.value, ast.Name) and x.value.id == opv
+                        and x.attr in ("job_id", "operation_id", "position_in_job")
+                        for x in ast.walk(idx)
+                    )
+                    keyed_by_machine = any(isinstance(x, ast.Name) and x.id in mvars for x in ast.walk(idx))
+                    if keyed_by_op and not keyed_by_machine:
+                        hits += 1
+                        chk.violation(
+                            rule_id, fi, st,
+                            f"`{ast.unparse(st)[:90]}` runs once per (machine, operation) pair of operations_by_machine: an operation "
+                            "with several eligible machines is added once for each of them, so the per-job / per-operation value "
+                            "is too large on flexible instances",
+                            loc=fi.loc(st),
+                        )
+    if not hits:
+        chk.ok(rule_id, ", ".join(prefixes), "", f"{n_walks} walks over operations_by_machine, none accumulates a per-job / per-operation quantity")
